@@ -780,16 +780,18 @@ def grow_size_rule(run, f, rid):
     for blk in b.blocks:
         for j, s_ in enumerate(blk["stmts"]):
             if s_["k"] == "assign" and s_["rhs"]["k"] == "binop" and s_["rhs"]["op"] in ("Lt", "Le", "Gt", "Ge"):
-                pa = {b.name_of(p_) for p_ in backward(b, s_["rhs"]["a"], du, at=(blk["id"], j), through_calls="none").params}
-                pb = {b.name_of(p_) for p_ in backward(b, s_["rhs"]["b"], du, at=(blk["id"], j), through_calls="none").params}
-                if (pa, pb) in (({"red_zone"}, {"stack_size"}), ({"stack_size"}, {"red_zone"})):
+                # parameters by position (red_zone is the first, stack_size the second), not by name
+                pa = set(backward(b, s_["rhs"]["a"], du, at=(blk["id"], j), through_calls="none").params)
+                pb = set(backward(b, s_["rhs"]["b"], du, at=(blk["id"], j), through_calls="none").params)
+                if (pa, pb) in (({1}, {2}), ({2}, {1})):
                     cmp_params = True
     for i, (x, t) in enumerate(news):
         sl = backward(b, t["args"][0], du, at=(x, "term"), through_calls="all")
         names = {b.name_of(p_) for p_ in sl.params}
+        idxs = set(sl.params)
         maxed = any(norm(tt.get("orig") or tt.get("callee") or "").rsplit("::", 1)[-1] in ("max", "clamp") for (_y, tt) in sl.calls) or bool({"Lt", "Le", "Gt", "Ge"} & set(sl.binops())) or cmp_params
         key = "maybe_grow_with/segment-size/%d" % i
-        if "red_zone" in names and "stack_size" in names and maxed:
+        if {1, 2} <= idxs and maxed:
             run.ok(rid, key, "max(stack_size, red_zone)")
         else:
             run.fail(rid, key, b.loc(t.get("line")), "the segment allocated for the callback has a size derived from %s only: with red_zone > stack_size the callback runs with less stack than the red zone it was promised" % (sorted(n for n in names if n) or "a constant"))
